@@ -21,20 +21,85 @@ type globalInit struct {
 var ordRe = regexp.MustCompile(`(closure|local|makemap|makeslice)#(\d+)`)
 var funcLitRe = regexp.MustCompile(`func:\w+\.init\$(\d+)`)
 
+var makemapRe = regexp.MustCompile(`makemap#\d+:[^ ,(){}]+`)
+
+// collectGlobalInit: canonical description of everything the package initialiser stores into the global
+// (value graphs of the stored values, structural for literals; updates of maps created for it).
 func collectGlobalInit(p *Program, s *summarizer, init *ssa.Function, g *ssa.Global, canonName string) *globalInit {
 	gi := &globalInit{}
 	ord := map[string]string{}
+	name := "global:" + g.Pkg.Pkg.Name() + "." + g.Name()
+	isThis := func(target string) bool {
+		i := strings.Index(target, name)
+		if i < 0 {
+			return false
+		}
+		rest := target[i+len(name):]
+		return rest == "" || !(rest[0] == '_' || rest[0] >= '0' && rest[0] <= '9' || rest[0] >= 'a' && rest[0] <= 'z' || rest[0] >= 'A' && rest[0] <= 'Z')
+	}
+	canonOf := func(t *Term) string {
+		str, need := tryCanon(t, map[string]bool{})
+		if need != "" {
+			return printTerm(t)
+		}
+		return str
+	}
+	var raw []string
+	maps := map[string]bool{}
+	for _, e := range s.sum.Effects {
+		if e.Kind != "store" {
+			continue
+		}
+		target := canonOf(e.Args[0])
+		if !isThis(target) {
+			continue
+		}
+		val := canonOf(e.Args[1])
+		raw = append(raw, target+" := "+val)
+		for _, m := range makemapRe.FindAllString(val, -1) {
+			maps[m] = true
+		}
+	}
+	for changed := true; changed; {
+		changed = false
+		for _, e := range s.sum.Effects {
+			if e.Kind != "mapupdate" {
+				continue
+			}
+			m := canonOf(e.Args[0])
+			if !maps[m] {
+				continue
+			}
+			item := m + "[" + canonOf(e.Args[1]) + "] := " + canonOf(e.Args[2])
+			dup := false
+			for _, r := range raw {
+				if r == item {
+					dup = true
+				}
+			}
+			if dup {
+				continue
+			}
+			raw = append(raw, item)
+			for _, mm := range makemapRe.FindAllString(item, -1) {
+				if !maps[mm] {
+					maps[mm] = true
+					changed = true
+				}
+			}
+		}
+	}
 	norm := func(str string) string {
-		str = strings.ReplaceAll(str, "global:"+g.Pkg.Pkg.Name()+"."+g.Name(), "global:"+canonName)
+		str = strings.ReplaceAll(str, name, "global:"+canonName)
 		str = funcLitRe.ReplaceAllStringFunc(str, func(m string) string {
 			if v, ok := ord[m]; ok {
 				return v
 			}
 			v := fmt.Sprintf("funclit@%d", len(ord))
 			ord[m] = v
-			name := m[strings.LastIndex(m, ".")+1:]
+			fname := m[strings.LastIndex(m, ".")+1:]
 			for _, af := range init.AnonFuncs {
-				if af.Name() == name {
+				if af.Name() == fname {
 					gi.Closures = append(gi.Closures, af)
 				}
 			}
@@ -57,28 +122,12 @@ func collectGlobalInit(p *Program, s *summarizer, init *ssa.Function, g *ssa.Glo
 			return v
 		})
 	}
-	for _, b := range init.Blocks {
-		for _, in := range b.Instrs {
-			st, ok := in.(*ssa.Store)
-			if !ok {
-				continue
-			}
-			rooted := false
-			for _, r := range rootsOf(st.Addr) {
-				if r.Kind == RGlobal && r.V == g && r.Deref == 0 {
-					rooted = true
-				}
-			}
-			if !rooted {
-				continue
-			}
-			at, _ := tryCanon(s.addrTerm(st.Addr), map[string]bool{})
-			vt, need := tryCanon(s.term(st.Val), map[string]bool{})
-			if need != "" {
-				vt = printTerm(s.term(st.Val))
-			}
-			gi.Items = append(gi.Items, norm(at+" := "+vt))
-		}
+	for _, r := range raw {
+		gi.Items = append(gi.Items, norm(r))
+	}
+	// references to other globals of the spec overlay denote their counterparts
+	for i := range gi.Items {
+		gi.Items[i] = strings.ReplaceAll(gi.Items[i], "."+specPrefix, ".")
 	}
 	return gi
 }
@@ -115,6 +164,7 @@ func ruleGlobals(p *Program, c *Check) {
 			}
 			if s == nil {
 				s = newSummarizer(p, init)
+				s.collect()
 			}
 			canon := sp.Pkg.Name() + "." + target
 			a := collectGlobalInit(p, s, init, cg, canon)
